@@ -495,7 +495,18 @@ impl Writer {
         // Check if active file size exceeds the max limit. This must be done as the last step of
         // the writing process, otherwise we risk corrupting the storage states.
         if self.written_bytes > self.ctx.conf.max_file_size {
-            self.new_active_datafile(self.next_fileid)?;
+            if let Err(e) = self.new_active_datafile(self.next_fileid) {
+                // The caller is told that the write failed and will not index the entry, so it
+                // is a dead entry, as it is when the sync fails
+                if datafile_entry.value.is_some() {
+                    self.ctx
+                        .stats
+                        .entry(self.active_fileid)
+                        .or_default()
+                        .overwrite(index.len);
+                }
+                return Err(e);
+            }
         }
         Ok(keydir_entry)
     }
